@@ -62,13 +62,13 @@ func RunFaults(e *Env) {
 		}
 		cases = append(cases, c)
 	}
-	reps := e.Pick(12, 80)
+	reps := e.Pick(12, 300)
 	for r := 0; r < reps; r++ {
 		for mask := 0; mask < 8; mask++ {
 			add(3, mask, rng)
 		}
 	}
-	for i := 0; i < e.Pick(250, 4000); i++ {
+	for i := 0; i < e.Pick(250, 20000); i++ {
 		n := 4 + rng.Intn(2)
 		add(n, rng.Intn(1<<n), rng)
 	}
